@@ -71,12 +71,17 @@ type Scenario struct {
 	Features  []string          `json:"features,omitempty"`
 	QuietUs   int               `json:"quiet_us,omitempty"`
 	MaxRetry  int               `json:"max_retries,omitempty"`
+	MinMs     int               `json:"min_delay_ms,omitempty"` // recovery back-off bounds
+	MaxMs     int               `json:"max_delay_ms,omitempty"`
+	WindowMs  int               `json:"retries_window_ms,omitempty"`
+	Restart   bool              `json:"final_restart,omitempty"` // after the end: Start again, short flow, StopAndWait
 }
 
 type call struct {
 	name string
 	done chan struct{}
 	err  error
+	hung bool
 }
 
 type runner struct {
@@ -87,10 +92,11 @@ type runner struct {
 	eng   *engine.Engine
 	ctx   context.Context
 
-	mu      sync.Mutex
-	calls   []*call
-	started bool
-	quiet   time.Duration
+	mu        sync.Mutex
+	calls     []*call
+	started   bool
+	restarted bool
+	quiet     time.Duration
 
 	faultMu sync.Mutex
 	opCount map[string]int
@@ -158,7 +164,8 @@ func (r *runner) run() {
 	}
 	r.log.Add("Reset", "scenario", sc.ID, "engine", sc.Engine, "srcs", srcIDs, "dsts", dstIDs, "nrec", srcN,
 		"procs", procInfo, "window", sc.DLQ.Window, "threshold", sc.DLQ.Threshold,
-		"persister", sc.Persister, "features", sc.Features)
+		"persister", sc.Persister, "features", sc.Features,
+		"max_retries", sc.MaxRetry, "min_delay_ms", sc.MinMs, "max_delay_ms", sc.MaxMs)
 
 	r.world = fakes.NewWorld(r.log)
 	r.db = store.New(r.log)
@@ -201,6 +208,15 @@ func (r *runner) newEngine(db *store.DB) *engine.Engine {
 	}
 	rec := engine.DefaultRecovery()
 	rec.MaxRetries = int64(r.sc.MaxRetry) // default 0: no automatic restart in data-path scenarios
+	if r.sc.MinMs > 0 {
+		rec.MinDelay = time.Duration(r.sc.MinMs) * time.Millisecond
+	}
+	if r.sc.MaxMs > 0 {
+		rec.MaxDelay = time.Duration(r.sc.MaxMs) * time.Millisecond
+	}
+	if r.sc.WindowMs > 0 {
+		rec.MaxRetriesWindow = time.Duration(r.sc.WindowMs) * time.Millisecond
+	}
 	opt.Recovery = rec
 	return engine.New(r.world, db, opt)
 }
@@ -445,6 +461,31 @@ func (r *runner) step(i int, st Step) {
 	case "StopAndWait":
 		r.settle()
 		r.async("StopAndWait", func() error { return e.LC.StopAndWait(r.ctx, PipelineID) })
+	case "StopAll":
+		r.settle()
+		r.async("StopAll", func() error { return e.StopAll(r.ctx, pipeline.ErrGracefulShutdown) })
+	case "WaitStatus":
+		ms := st.Ms
+		if ms == 0 {
+			ms = 3000
+		}
+		ok := r.log.WaitFor(func() bool { return r.pipelineStatus() == st.Tag }, time.Duration(ms)*time.Millisecond)
+		if !ok {
+			r.log.Add("Skip", "step", i, "do", st.Do, "why", "status "+st.Tag+" not reached", "status", r.pipelineStatus())
+		}
+	case "WaitOpens":
+		// wait until the source has been opened st.N times in total (recovery restarts)
+		s := r.world.Source(st.Src)
+		ms := st.Ms
+		if ms == 0 {
+			ms = 3000
+		}
+		if s == nil || !r.log.WaitFor(func() bool { return s.Opens() >= st.N }, time.Duration(ms)*time.Millisecond) {
+			r.log.Add("Skip", "step", i, "do", st.Do, "why", "opens not reached")
+		}
+	case "SetFault":
+		// change a fake's fault script while running: st.Dst = connector id, st.Tag = knob, st.Err = value
+		r.world.SetFault(st.Dst, st.Tag, st.Err, st.N)
 	case "Wait":
 		r.async("WaitPipeline", func() error { return e.LC.WaitPipeline(PipelineID) })
 	case "Flush":
@@ -614,40 +655,46 @@ func (r *runner) finalize() {
 	if final == "" {
 		final = "stopandwait"
 	}
-	stopIssued := false
+	r.awaitCalls()
 	r.mu.Lock()
+	stopAccepted := false
 	for _, c := range r.calls {
-		if c.name == "Stop" || c.name == "ForceStop" || c.name == "StopAndWait" {
-			stopIssued = true
+		if (c.name == "Stop" || c.name == "StopAndWait" || c.name == "ForceStop" || c.name == "StopAll") && !c.hung && c.err == nil {
+			stopAccepted = true
 		}
 	}
 	r.mu.Unlock()
+	if stopAccepted && final != "none" {
+		// the scenario already stopped the pipeline: give that run time to end before anything else
+		r.log.WaitFor(func() bool {
+			s := r.pipelineStatus()
+			return s != "Running" && s != "Recovering"
+		}, hangBound)
+	}
 	if r.started && final != "none" {
-		st := r.pipelineStatus()
-		if (st == "Running" || st == "Recovering") && !stopIssued {
+		// stop whatever is (still, or again after a recovery restart) running
+		for attempt := 0; attempt < 3; attempt++ {
+			st := r.pipelineStatus()
+			if st != "Running" && st != "Recovering" {
+				break
+			}
+			var c *call
 			if final == "stopwait" {
 				r.async("Stop", func() error { return r.eng.LC.Stop(r.ctx, PipelineID, false) })
-				r.async("WaitPipeline", func() error { return r.eng.LC.WaitPipeline(PipelineID) })
+				c = r.async("WaitPipeline", func() error { return r.eng.LC.WaitPipeline(PipelineID) })
 			} else {
-				r.async("StopAndWait", func() error { return r.eng.LC.StopAndWait(r.ctx, PipelineID) })
+				c = r.async("StopAndWait", func() error { return r.eng.LC.StopAndWait(r.ctx, PipelineID) })
 			}
-		} else if stopIssued {
-			r.async("WaitPipeline", func() error { return r.eng.LC.WaitPipeline(PipelineID) })
+			if !waitCall(c, hangBound) {
+				break
+			}
+			r.log.WaitFor(func() bool {
+				s := r.pipelineStatus()
+				return s != "Running" && s != "Recovering"
+			}, 2*time.Second)
 		}
 	}
-	deadline = time.Now().Add(hangBound)
-	r.mu.Lock()
-	calls := append([]*call(nil), r.calls...)
-	r.mu.Unlock()
-	for i, c := range calls {
-		d := time.Until(deadline)
-		if d < time.Second {
-			d = time.Second
-		}
-		if !waitCall(c, d) {
-			r.log.Add("Hang", "call", c.name, "cid", i+1, "goroutines", goroutineDump())
-		}
-	}
+	r.awaitCalls()
 	if r.started && final != "none" {
 		// the run must have ended: status no longer running
 		ok := r.log.WaitFor(func() bool {
@@ -670,6 +717,47 @@ func (r *runner) finalize() {
 	}
 	r.log.Quiesce(3*time.Millisecond, time.Second)
 	r.endEvent()
+	if r.sc.Restart && !r.restarted {
+		r.restarted = true
+		r.restartCheck()
+	}
+}
+
+// restartCheck (C11 "released so the pipeline can be started again", C12 "resumes from its durable
+// position"): clear every fault, give each source a few more records, Start, let it flow, stop.
+func (r *runner) restartCheck() {
+	r.world.ClearFaults(2)
+	r.log.Add("RestartCheck")
+	r.mu.Lock()
+	r.calls = nil
+	r.mu.Unlock()
+	c := r.async("Start", func() error { return r.eng.LC.Start(r.ctx, PipelineID) })
+	if !waitCall(c, hangBound) {
+		r.log.Add("Hang", "call", "Start")
+		return
+	}
+	r.finalize()
+}
+
+// awaitCalls waits (bounded) for every outstanding control call; a call that does not return is a Hang.
+func (r *runner) awaitCalls() {
+	deadline := time.Now().Add(hangBound)
+	r.mu.Lock()
+	calls := append([]*call(nil), r.calls...)
+	r.mu.Unlock()
+	for i, c := range calls {
+		if c.hung {
+			continue
+		}
+		d := time.Until(deadline)
+		if d < time.Second {
+			d = time.Second
+		}
+		if !waitCall(c, d) {
+			c.hung = true
+			r.log.Add("Hang", "call", c.name, "cid", i+1, "goroutines", goroutineDump())
+		}
+	}
 }
 
 func (r *runner) endEvent() {
